@@ -605,9 +605,13 @@ func cmdCheck(args []string) int {
 		"technique":                     p.Technique,
 		"explanation":                   "bounded symbolic execution of the real go/ssa of /repo; every branch, panic condition, assertion and loop-state repetition is an SMT query (z3/cvc5); 'states' = explored paths, 'transitions' = solver-decided branch decisions",
 	}
-	os.MkdirAll(filepath.Join(verifDir, "evidence"), 0o755)
+	evDir := filepath.Join(verifDir, "evidence")
+	if d := os.Getenv("GSE_EVIDENCE_DIR"); d != "" { // mutation experiments must not overwrite the committed evidence
+		evDir = d
+	}
+	os.MkdirAll(evDir, 0o755)
 	b, _ := json.MarshalIndent(ev, "", " ")
-	if err := os.WriteFile(filepath.Join(verifDir, "evidence", id+".json"), b, 0o644); err != nil {
+	if err := os.WriteFile(filepath.Join(evDir, id+".json"), b, 0o644); err != nil {
 		fmt.Fprintln(os.Stderr, err)
 	}
 	fmt.Printf("%s tier=%s: %d jobs, %d paths, %d/%d obligations discharged, %d known findings, %d violations, %d unconfirmed, %d inconclusive, %.1fs\n",
